@@ -50,8 +50,8 @@ META = dict(
          "copyModule_deep_frame (own mutations on either side never change the other side's view), "
          "copyModule_deep_as_list and copyModule_deep_views (as_list() resp. BOTH views — tokens, names in order with all "
          "occurrences and positions, list-all names, nested results expanded — of the copy are those of the original, to "
-         "every depth). PARTIAL: deepcopy()'s name view of nested groups is proved "
-         "only in the form `same occurrence lists` (deepcopy_names_shared); container tokens (list/tuple/dict holding "
+         "every depth). PARTIAL: the view theorems need the whole structure reachable from the object (tokens and "
+         "names) to be allocated and acyclic (hypothesis FD); container tokens (list/tuple/dict holding "
          "groups, results.py:598-605) are not in the heap model: oracle only. "
          "from_dict: tree model of from_dict/as_dict (PPModel/Mod/PRFromDict.lean), "
          "from_dict_roundtrip proved for ALL dicts whose nested dicts are non-empty, at every depth (full strength on "
